@@ -526,6 +526,11 @@ fn c17(rng: &mut Rng, _tier: &str, _idx: usize) -> Case {
                 if out.len() < n {
                     sel[..n].iter().map(|t| vec![*t]).collect()
                 } else {
+                    if rng.chance(1, 4) {
+                        // one input set without any term (a set is a set; it takes part like the others)
+                        let i = rng.below(n as u64) as usize;
+                        out[i] = vec![];
+                    }
                     out
                 }
             } else {
